@@ -502,6 +502,11 @@ bool Sign::is_canonical(const RCP<const Basic> &arg) const
         if (eq(*arg, *ComplexInf)) {
             return true;
         }
+        // exact complex numbers off the axes stay unevaluated
+        if (is_a<Complex>(*arg)
+            and not down_cast<const Complex &>(*arg).is_re_zero()) {
+            return true;
+        }
         return false;
     }
     if (is_a<Constant>(*arg)) {
@@ -549,6 +554,12 @@ RCP<const Basic> sign(const RCP<const Basic> &arg)
             if (down_cast<const Number &>(*r).is_negative()) {
                 return mul(minus_one, I);
             }
+        }
+        if (is_a_Complex(*arg)
+            and not down_cast<const Number &>(*arg).is_exact()) {
+            // z / |z|
+            return down_cast<const Number &>(*arg).div(
+                *rcp_static_cast<const Number>(abs(arg)));
         }
     }
     if (is_a<Constant>(*arg)) {
